@@ -17,8 +17,12 @@ type raceStack struct {
 
 func parseRaceBlock(blk string) (stacks []raceStack) {
 	lines := strings.Split(blk, "\n")
+	repo := os.Getenv("VERIF_REPO")
+	if repo == "" {
+		repo = "/repo"
+	}
 	var cur *raceStack
-	for _, l := range lines {
+	for li, l := range lines {
 		switch {
 		case strings.HasPrefix(l, "Write at "), strings.HasPrefix(l, "Read at "),
 			strings.HasPrefix(l, "Previous write at "), strings.HasPrefix(l, "Previous read at "),
@@ -32,6 +36,14 @@ func parseRaceBlock(blk string) (stacks []raceStack) {
 			f := strings.TrimSpace(l)
 			if k := strings.LastIndex(f, "("); k > 0 {
 				f = f[:k]
+			}
+			// a closure of the library inlined into harness code is named after the harness
+			// function; its source position tells whose code it is
+			if !isGoatFunc(f) && li+1 < len(lines) {
+				file := strings.TrimSpace(lines[li+1])
+				if strings.HasPrefix(file, repo+"/") && !strings.HasPrefix(file, repo+"/gen/") {
+					f = "github.com/avos-io/goat.(inlined)/" + f
+				}
 			}
 			cur.funcs = append(cur.funcs, f)
 		}
